@@ -31,8 +31,8 @@ JoinSeq(sq, glue) == IF sq = <<>> THEN ""
 RECURSIVE Times(_, _)
 Times(sq, n) == IF n <= 0 THEN <<>> ELSE sq \o Times(sq, n - 1)
 
-RECURSIVE Repeat(_, _)
-Repeat(s, n) == IF n <= 0 THEN "" ELSE s \o Repeat(s, n - 1)
+RECURSIVE RepeatStr(_, _)
+RepeatStr(s, n) == IF n <= 0 THEN "" ELSE s \o RepeatStr(s, n - 1)
 
 (* ---- exact rationals <<num, den>> in lowest terms, den > 0 -------------- *)
 RECURSIVE GCD(_, _)
